@@ -38,6 +38,9 @@ TEXT = {
  "C11": dict(technique="client-side outstanding ledger evaluated at every Send (hook in the fake stream) + quiescence no-stall monitor; random virtual delays at the stream's transaction boundaries; Go race detector",
    text="Exploration: seeded stream scripts over flow-control x size grids; the ledger is updated synchronously inside the real sender's Send call, so every reachable 'just sent' state is checked against max_outstanding_messages / bytes; after each capacity-freeing action the stream must have sent any fitting deliverable message by quiescence. One stall shape (byte head-of-line) is a recorded known finding; the nack slot leak found this way was repaired.",
    note="Trusted base: the ledger's settle rules (DESIGN.md 4A, streaming capacity) chosen so that a correct server can never be accused; testing/synctest quiescence."),
+ "C12": dict(technique="name -> resource reference map over create/delete/re-create/get/list histories with adversarial names; page-walk multiset comparison; racing creators under the race detector",
+   text="Exploration: histories over projects and ids that differ by case, prefix and LIKE wildcards; every status code of Create/Get/Delete is compared with the model's live map, every List is walked to exhaustion for page sizes {1,2,3,7,100,0,-1} and compared as a multiset with the live set of exactly that project, re-created subscriptions are checked for inherited settings and backlog, and 2-4 concurrent creators of one name must yield exactly one OK. Two defects found this way were repaired (ListSnapshots prefix, case-folding LIKE).",
+   note="Trusted base: the string-prefix reference for 'project'; SQLite only. Snapshots of a subscription whose topic is already deleted are tracked as existing (listing them is unspecified but consistent)."),
  "C13": dict(technique="reference-model monitor: expected backlog after seek (set equality via probe pulls and drain)",
    text="Exploration: histories of publish / pull / partial ack / snapshot / more traffic / seek to past, present, future times and to own snapshots, repeated seeks, then probes and a drain; what is outstanding afterwards must equal the model's backlog (missing => seek-revived-missing, extra => delivered-after-seek-past).",
    note=_HIST_NOTE + " 'Retained' is read from the deliveries table (pruned rows are documented as not resurrected). Sibling-subscription snapshots, dead-letter subscriptions under seek and revival of completed-and-expired messages are unspecified."),
